@@ -1483,7 +1483,11 @@ def _all(I, t, dim=None, keepdim=False):
         I.ex.assume(z3.ForAll(iv0, elim(*iv0)) if iv0 else elim())
         cex = z3.Implies(z3.Not(b0), z3.And(inr0(ws0), z3.Not(tv(ws0))))
         I.ex.assume(cex)
-        I.ex.ghost.setdefault("alls", []).append({"B": b0, "elim": elim, "cex": cex, "witness": ws0})
+        rec_ = {"B": b0, "elim": elim, "cex": cex, "witness": ws0}
+        I.ex.ghost.setdefault("alls", []).append(rec_)
+        for hook in I.ex.ghost.get("all_hooks", []):  # the sidecar's quantified hypotheses, instantiated at the counterexample witness
+            for x_ in hook(rec_):
+                I.ex.instance(x_)
         return b0
     if dim is None or keepdim:
         raise Unsupported("all() with keepdim and no dimension on a symbolic-shape tensor")
